@@ -238,6 +238,12 @@ func (f *RunningEventFilter) onReorg(writer db.KeyValueWriter) error {
 		return err
 	}
 
+	// A snapshot persisted before this reorg describes blocks that are being replaced; a later
+	// unclean restart would resume from it and miss the events of their replacements.
+	if err := writer.Delete(db.RunningEventFilter.Key()); err != nil {
+		return fmt.Errorf("deleting stale running event filter snapshot: %w", err)
+	}
+
 	currRangeStart := f.inner.FromBlock()
 	curBlock := f.next - 1
 	// Falls into previous filter's range
